@@ -138,4 +138,118 @@ theorem listFrom_inv (acc : Int → Bool) (sh : Shard) (incl : Repo → Bool) (f
       (listStep_inv acc sh incl field out pre.length r hr h)
     simpa using this
 
+/-! ### non-interference -/
+
+/-- blank everything a context may not see: the identifying fields of inaccessible repositories … -/
+def eraseRepo (acc : Int → Bool) (r : Repo) : Repo :=
+  if acc r.tenant then r else { r with id := 0, name := "", url := "", frag := "", subs := [] }
+
+/-- … and name, tombstone flag and match verdict of their documents -/
+def eraseDoc (acc : Int → Bool) (sh : Shard) (d : Doc) : Doc :=
+  match sh.repos[d.repo]? with
+  | some r => if acc r.tenant then d else { d with name := "", ftomb := false, count := 0 }
+  | none => d
+
+def erase (acc : Int → Bool) (sh : Shard) : Shard :=
+  ⟨sh.repos.map (eraseRepo acc), sh.docs.map (eraseDoc acc sh)⟩
+
+theorem eraseRepo_tenant (acc : Int → Bool) (r : Repo) : (eraseRepo acc r).tenant = r.tenant := by
+  unfold eraseRepo; split <;> rfl
+
+theorem eraseRepo_tomb (acc : Int → Bool) (r : Repo) : (eraseRepo acc r).tomb = r.tomb := by
+  unfold eraseRepo; split <;> rfl
+
+theorem eraseRepo_acc (acc : Int → Bool) (r : Repo) (h : acc r.tenant = true) : eraseRepo acc r = r := by
+  unfold eraseRepo; simp [h]
+
+theorem eraseDoc_repo (acc : Int → Bool) (sh : Shard) (d : Doc) : (eraseDoc acc sh d).repo = d.repo := by
+  unfold eraseDoc; split
+  · split <;> rfl
+  · rfl
+
+theorem erase_repos_get (acc : Int → Bool) (sh : Shard) (i : Nat) :
+    (erase acc sh).repos[i]? = (sh.repos[i]?).map (eraseRepo acc) := by
+  simp [erase]
+
+theorem stepDoc_erase (acc : Int → Bool) (sh : Shard) (maxRepo : Nat) (st : LoopSt) (i : Nat) (d : Doc) :
+    stepDoc acc (erase acc sh) maxRepo st i (eraseDoc acc sh d) = stepDoc acc sh maxRepo st i d := by
+  unfold stepDoc
+  rw [eraseDoc_repo, erase_repos_get]
+  cases hr : sh.repos[d.repo]? with
+  | none => rfl
+  | some r =>
+    simp only [Option.map_some]
+    by_cases hacc : acc r.tenant = true
+    · have hd : eraseDoc acc sh d = d := by unfold eraseDoc; simp [hr, hacc]
+      rw [eraseRepo_acc acc r hacc, hd]
+    · have h1 : skipDoc acc (eraseRepo acc r) maxRepo st (eraseDoc acc sh d) = true := by
+        simp [skipDoc, eraseRepo_tenant, hacc]
+      have h2 : skipDoc acc r maxRepo st d = true := by simp [skipDoc, hacc]
+      simp [h1, h2]
+
+theorem loopFrom_erase (acc : Int → Bool) (sh : Shard) (maxRepo : Nat) (ds : List Doc) (st : LoopSt) (i : Nat) :
+    loopFrom acc (erase acc sh) maxRepo st i (ds.map (eraseDoc acc sh)) = loopFrom acc sh maxRepo st i ds := by
+  induction ds generalizing st i with
+  | nil => rfl
+  | cons d ds ih => simp only [List.map_cons, loopFrom, stepDoc_erase, ih]
+
+theorem mapWrites_erase (acc : Int → Bool) (sh : Shard) (f : Repo → String) (g : SubRepo → String) :
+    mapWrites acc (erase acc sh) f g = mapWrites acc sh f g := by
+  unfold mapWrites erase
+  simp only
+  induction sh.repos with
+  | nil => rfl
+  | cons r rs ih =>
+    simp only [List.map_cons, List.filter_cons, eraseRepo_tenant]
+    by_cases hacc : acc r.tenant = true
+    · simp only [hacc, if_true, List.flatMap_cons, eraseRepo_acc acc r hacc, ih]
+    · simp only [hacc, Bool.false_eq_true, if_false, ih]
+
+/-- search on the erased shard: the whole result of a search (files, RepoURLs, LineFragments) is unchanged when every
+    repository the context may not access — its name, id, URL templates, sub-repositories, and the names, tombstones and
+    match verdicts of its documents — is replaced by blanks.  Nothing of an inaccessible repository can therefore show
+    in any output channel of the model. -/
+theorem search_erase (acc : Int → Bool) (sh : Shard) (early : Bool) (maxRepo : Nat) :
+    search acc (erase acc sh) early maxRepo = search acc sh early maxRepo := by
+  unfold search
+  split
+  · rfl
+  · simp only [mapWrites_erase]
+    have : (erase acc sh).docs = sh.docs.map (eraseDoc acc sh) := rfl
+    rw [this, loopFrom_erase]
+
+theorem docsOf_erase (acc : Int → Bool) (sh : Shard) (i : Nat) : docsOf (erase acc sh) i = docsOf sh i := by
+  unfold docsOf erase
+  simp only
+  induction sh.docs with
+  | nil => rfl
+  | cons d ds ih =>
+    simp only [List.map_cons, List.filter_cons, eraseDoc_repo]
+    split <;> simp [ih]
+
+theorem listStep_erase (acc : Int → Bool) (sh : Shard) (incl : Repo → Bool) (field : Field) (out : ListOut) (i : Nat) (r : Repo) :
+    listStep acc (erase acc sh) incl field out i (eraseRepo acc r) = listStep acc sh incl field out i r := by
+  unfold listStep
+  rw [eraseRepo_tomb, eraseRepo_tenant, docsOf_erase]
+  by_cases hacc : acc r.tenant = true
+  · rw [eraseRepo_acc acc r hacc]
+  · simp [hacc]
+
+theorem listFrom_erase (acc : Int → Bool) (sh : Shard) (incl : Repo → Bool) (field : Field) (rs : List Repo) (out : ListOut) (i : Nat) :
+    listFrom acc (erase acc sh) incl field out i (rs.map (eraseRepo acc)) = listFrom acc sh incl field out i rs := by
+  induction rs generalizing out i with
+  | nil => rfl
+  | cons r rs ih => simp only [List.map_cons, listFrom, listStep_erase, ih]
+
+
+theorem list_erase (acc : Int → Bool) (sh : Shard) (mode : ListMode) (early : Bool) (field : Field) :
+    list acc (erase acc sh) mode early field = list acc sh mode early field := by
+  unfold list
+  have hr : (erase acc sh).repos = sh.repos.map (eraseRepo acc) := rfl
+  cases mode with
+  | constFalse => rfl
+  | constTrue => simp only [hr, listFrom_erase]
+  | viaSearch => simp only [hr, search_erase, listFrom_erase]
+
+
 end ZoektModel.C23
